@@ -6,7 +6,7 @@
 From Coq Require Import List NArith.
 From RaftLog Require Import Base.Bytes Model.Types Model.Cache Model.Core Model.Recover Model.Run Model.Sys.
 From RaftLog Require Import Spec.Durable Proofs.NoPanic Proofs.CrashSteps Proofs.CrashRecover.
-From RaftLog Require Proofs.CodecFacts Proofs.ScanFacts Proofs.RestartSys Proofs.RestartCrash Proofs.RestartCrashImg.
+From RaftLog Require Proofs.CodecFacts Proofs.ScanFacts Proofs.RestartSys Proofs.RestartCrash Proofs.RestartCrashImg Proofs.RestartChain Proofs.RestartCrashIter.
 Import ListNotations.
 
 (* Finding F3: a vote that fills the chunk (chunk_max_records = 2) rotates; right after the
@@ -69,7 +69,37 @@ Theorem C05_from_nonvacuous :
             exists y', open_dir RestartSys.demo_cfg (z_disk z) = OpenOk y'.
 Proof. split; [exact RestartCrashImg.torn_dir_ok | exact RestartCrashImg.torn_dir_recovers]. Qed.
 
+(* after a MACHINE crash and reboot everything that is on disk is durable ([reboot d']: the
+   image with every file marked synced; open_dir ignores the synced marks: open_dir_deq): the
+   image outside the gap class opens, and the instance started on it satisfies the L2
+   durability and ordering contracts (C04/C08), whatever it does *)
+Theorem C05_reboot_next_instance : forall cfg cfg' z1 d',
+  zreach cfg z1 -> hist_wf z1 -> crash_image z1 d' ->
+  ~ gap_class d' -> c_truncate cfg' = true ->
+  exists z0, zinit cfg' (RestartChain.reboot d') = Some z0 /\
+    forall z2, RestartSys.zreach_from cfg' (RestartChain.reboot d') z2 -> RestartChain.contracts z2.
+Proof. exact RestartChain.C05_reboot_next_instance. Qed.
+
+(* ---- crash, reboot, reopen, crash again, ... : every crash image outside the gap class is
+   again a chained directory, and after a reboot (everything on disk durable) it meets [dir_ok];
+   so the theorem iterates: the instance may itself have been started on a [dir_ok] directory
+   (for instance the rebooted crash image of ITS predecessor), any number of times *)
+Theorem C05_crash_image_chained_from : forall cfg d z d',
+  RestartCrash.dir_ok d -> RestartSys.zreach_from cfg d z -> hist_wf z -> crash_image z d' ->
+  ~ gap_class d' -> RestartCrash.dir_ok (RestartCrashIter.reboot d').
+Proof. exact RestartCrashIter.crash_reboot_ok_from. Qed.
+
+Theorem C05_recovers_again : forall cfg cfg' cfg'' d z1 d1 z2 d2,
+  RestartCrash.dir_ok d -> RestartSys.zreach_from cfg d z1 -> hist_wf z1 -> crash_image z1 d1 -> ~ gap_class d1 ->
+  RestartSys.zreach_from cfg' (RestartCrashIter.reboot d1) z2 -> hist_wf z2 -> crash_image z2 d2 -> ~ gap_class d2 ->
+  c_truncate cfg'' = true ->
+  exists y, open_dir cfg'' d2 = OpenOk y /\ sys_ok y /\
+            (forall ops res fin, run_ops y ops = (res, fin) -> ~ In ResPanic res).
+Proof. exact RestartCrashIter.C05_recovers_again. Qed.
+
 Print Assumptions C05_refuted_gap.
 Print Assumptions C05_recovers_outside_known.
 Print Assumptions C05_recovers_outside_known_from.
 Print Assumptions C05_from_nonvacuous.
+Print Assumptions C05_reboot_next_instance.
+Print Assumptions C05_recovers_again.
